@@ -296,17 +296,47 @@ theorem candidate_of_match {d : Delims} {pats : List (List Char)} (hv : validate
   simp only [acSkip, Bool.and_eq_false_iff, decide_eq_false_iff_not, Bool.not_eq_false'] at hc
   exact hc
 
-theorem acFind_eq_findLL {d : Delims} {pats : List (List Char)} (hv : validatedStartDelims d = some pats) :
-    acFind d = findLL d := by
-  funext pre rest
-  simp only [acFind, hv]
+/-- What the proof uses about `aho_corasick::find_overlapping` (validated against the real automaton
+    by the `kac` stream, hook `start_marker_matches`): the reported matches are exactly the
+    occurrences of the patterns in the haystack (as a set: nothing missed, nothing invented; the
+    multiplicity and the order among matches that end at the same offset are free) and they come in
+    the order of their end offsets. -/
+structure AcSpec (pats : List (List Char)) (rest : List Char) (ms : List AcMatch) : Prop where
+  complete : ∀ m, m ∈ ms ↔ m ∈ acMatches pats rest
+  byEnd : ms.Pairwise (fun a b => a.stop ≤ b.stop)
+
+theorem acSpec_acMatches (pats : List (List Char)) (rest : List Char) : AcSpec pats rest (acMatches pats rest) :=
+  ⟨fun _ => Iff.rfl, acMatches_sorted pats rest⟩
+
+theorem byEndB_iff (ms : List AcMatch) : byEndB ms = true ↔ ms.Pairwise (fun a b => a.stop ≤ b.stop) := by
+  induction ms with
+  | nil => simp [byEndB]
+  | cons a r ih => simp [byEndB, List.pairwise_cons, ih, List.all_eq_true]
+
+/-- `acSpecB` decides `AcSpec` -/
+theorem acSpecB_iff (pats : List (List Char)) (rest : List Char) (ms : List AcMatch) :
+    acSpecB pats rest ms = true ↔ AcSpec pats rest ms := by
+  simp only [acSpecB, Bool.and_eq_true, List.all_eq_true, List.contains_iff_mem, byEndB_iff]
+  constructor
+  · rintro ⟨⟨h1, h2⟩, h3⟩
+    exact ⟨fun m => ⟨h1 m, h2 m⟩, h3⟩
+  · rintro ⟨h1, h2⟩
+    exact ⟨⟨fun m hm => (h1 m).1 hm, fun m hm => (h1 m).2 hm⟩, h2⟩
+
+/-- the loop of `find_start_marker` over ANY match list that meets `AcSpec` is the leftmost-longest
+    search -/
+theorem acLoop_eq_findLL_of_spec {d : Delims} {pats : List (List Char)} (hv : validatedStartDelims d = some pats)
+    (pre rest : List Char) (ms : List AcMatch) (hspec : AcSpec pats rest ms) :
+    acLoop d (maxPatternLen pats) pre rest none ms = findLL d pre rest := by
+  have hsub : ∀ m, m ∈ ms → m ∈ acMatches pats rest := fun m h => (hspec.complete m).1 h
   have hll := findLL_leftmostLongest d pre rest
   obtain ⟨_, hnd, hne⟩ := validated_spec hv
   cases hf : findLL d pre rest with
   | none =>
     rw [hf] at hll
     apply acLoop_none
-    intro m hm
+    intro m hm'
+    have hm := hsub m hm'
     cases hc : acSkip d pre rest m with
     | true => rfl
     | false =>
@@ -330,12 +360,13 @@ theorem acFind_eq_findLL {d : Delims} {pats : List (List Char)} (hv : validatedS
     obtain ⟨i, hi, hmk⟩ := (startPats_iff hv mk p).1 hp1
     simp only [patOk, Bool.and_eq_true, Bool.or_eq_true, bne_iff_ne, ne_eq] at hp2
     let T : AcMatch := ⟨s, i, p.length⟩
-    have hTmem : T ∈ acMatches pats rest := by
+    have hTacc : T ∈ acMatches pats rest := by
       refine mem_acMatches.2 ⟨p, hi, rfl, hp2.1, ?_⟩
       have := startsWith_length_le hp2.1
       simp only [List.length_drop] at this
       show s + p.length ≤ rest.length
       omega
+    have hTmem : T ∈ ms := (hspec.complete T).2 hTacc
     have hT : Target d (maxPatternLen pats) pre rest (· ∈ acMatches pats rest) T := by
       refine ⟨?_, length_le_maxPatternLen (List.mem_of_getElem? hi), ?_, ?_, ?_⟩
       · simp only [acSkip, Bool.and_eq_false_iff, decide_eq_false_iff_not, Bool.not_eq_false']
@@ -362,15 +393,21 @@ theorem acFind_eq_findLL {d : Delims} {pats : List (List Char)} (hv : validatedS
           rcases List.getElem?_eq_some_iff.1 h1 with ⟨h, _⟩; exact h
         exact (List.getElem?_inj hlt hnd).1 (by rw [h1, hi])
     obtain ⟨ms1, ms2, hsplit⟩ := List.append_of_mem hTmem
-    have hsorted := acMatches_sorted pats rest
+    have hsorted := hspec.byEnd
     rw [hsplit, List.pairwise_append, List.pairwise_cons] at hsorted
     obtain ⟨_, ⟨hafter, _⟩, hbefore⟩ := hsorted
-    have hin1 : ∀ m ∈ ms1, m ∈ acMatches pats rest := fun m hm => by rw [hsplit]; simp [hm]
-    have hin2 : ∀ m ∈ ms2, m ∈ acMatches pats rest := fun m hm => by rw [hsplit]; simp [hm]
+    have hin1 : ∀ m ∈ ms1, m ∈ acMatches pats rest := fun m hm => hsub m (by rw [hsplit]; simp [hm])
+    have hin2 : ∀ m ∈ ms2, m ∈ acMatches pats rest := fun m hm => hsub m (by rw [hsplit]; simp [hm])
     rw [hsplit, acLoop_before hT ms2 ms1 none (Or.inl rfl)
       (fun m hm => ⟨hin1 m hm, hbefore m hm T (by simp)⟩),
       acLoop_after hT ms2 (fun m hm => ⟨hin2 m hm, hafter m hm⟩)]
     simp [bestOf, T, hmk]
+
+theorem acFind_eq_findLL {d : Delims} {pats : List (List Char)} (hv : validatedStartDelims d = some pats) :
+    acFind d = findLL d := by
+  funext pre rest
+  simp only [acFind, hv]
+  exact acLoop_eq_findLL_of_spec hv pre rest _ (acSpec_acMatches pats rest)
 
 /-- for every delimiter set that `SyntaxConfigBuilder::build` accepts, the search the tokenizer
     uses is the leftmost-longest search -/
